@@ -398,7 +398,7 @@ func execSv(toks []string) string {
 				// S id,fin[,method,cl]  method 0 POST 1 GET 2 HEAD (default: POST, GET with FIN);
 				// cl 0 = no Content-Length, 1 = "abc", 2 = "-5", k+10 = the number k
 				s := &spdy.SynStreamFrame{StreamId: spdy.StreamId(n[0]), Headers: http.Header{}}
-			sent[n[0]] = 0 // a request body starts here (DATA before the SYN_STREAM is refused, not delivered)
+				sent[n[0]] = 0 // a request body starts here (DATA before the SYN_STREAM is refused, not delivered)
 				meth := "POST"
 				if n[1] != 0 {
 					meth = "GET"
@@ -499,6 +499,10 @@ func execSv(toks []string) string {
 		cv.corrupt = map[uint32]bool{}
 		cv.mu.Unlock()
 		sort.Strings(bad)
+		if closed {
+			// the connection is gone: every handler's pending read is released with an error — not part of the event
+			reads, rends = nil, nil
+		}
 		out = append(out, render(got, reads, rends))
 		if len(bad) > 0 {
 			out = append(out, strings.Join(bad, ","))
